@@ -25,7 +25,7 @@ go test -vet=off -count=1 -run "^$testname\$" ./$pkgdir/ 2>&1 | tail -3
 rm -f $wt/$pkgdir/$(basename $demo)
 echo "--- existing tests WITH change"
 go test -vet=off -count=1 ./x/... ./app/... 2>&1 | grep -v "no test files" | grep -v "^ok" | tail -5
-go test -vet=off -count=1 ./tests/integration/... 2>&1 | tail -2
+go test -vet=off -count=1 -timeout 90m ./tests/integration/... 2>&1 | tail -2
 git checkout -q -- . ; git clean -fdq
 if [ "${USE_REPO:-0}" = "1" ]; then
   echo "--- /verif checks against /repo WITH change"
